@@ -55,8 +55,12 @@ def xrun(fam, cases):
     rc = rc2 = 0
     err = err2 = ""
     for (hm, da), cs in groups.items():
-        hl = [fam.harness_line(c) for c in cs]
-        i1, r1, e1 = core.run_lines([core.HARNESS] + list(hm), hl)
+        # cases that come with the implementation's observation (produced by a harness mode that
+        # generates its own cases from recorded data) are not run again
+        pre = {c["id"]: c["pre_obs"] for c in cs if c.get("pre_obs") is not None}
+        hl = [fam.harness_line(c) for c in cs if c.get("pre_obs") is None]
+        i1, r1, e1 = core.run_lines([core.HARNESS] + list(hm), hl) if hl else ({}, 0, "")
+        i1.update(pre)
         impl.update(i1)
         dl = [fam.driver_line(c, i1.get(c["id"])) for c in cs]
         m1, r2, e2 = core.run_lines([core.DRIVER] + list(da), dl)
@@ -75,16 +79,17 @@ def xrun(fam, cases):
     return recs, (rc, err, rc2, err2)
 
 
-def shrink(fam, c, pred, budget=200):
-    """greedy shrinking: keep a candidate while pred(candidate) still holds"""
+def shrink(fam, c, pred, budget=200, seconds=45):
+    """greedy shrinking: keep a candidate while pred(candidate) still holds (bounded in steps and time)"""
     cur = c
     steps = 0
     improved = True
-    while improved and steps < budget:
+    t_end = time.time() + seconds
+    while improved and steps < budget and time.time() < t_end:
         improved = False
         for cand in fam.shrink_candidates(cur):
             steps += 1
-            if steps > budget:
+            if steps > budget or time.time() > t_end:
                 break
             cand = dict(cand, id="shrink")
             try:
